@@ -1184,9 +1184,28 @@ func (nz *normaliser) expandBody(h *helper, call *ast.CallExpr, lhs []ast.Expr, 
 		nzWhy(h, "receiver type not visible at call")
 		return nil
 	}
-	// clone the body, remembering which identifiers are which parameter
-	type mark struct{ b *binding }
+	// clone the body, remembering which identifiers are which parameter and which name something the helper declares
+	nz.seq++
+	sfx := fmt.Sprintf("Zq%d", nz.seq)
+	within := func(p token.Pos) bool {
+		if p >= h.decl.Body.Pos() && p < h.decl.Body.End() {
+			return true
+		}
+		return h.decl.Type.Results != nil && p >= h.decl.Type.Results.Pos() && p < h.decl.Type.Results.End()
+	}
+	tsDefs := map[*ast.Ident]bool{}
+	ast.Inspect(h.decl.Body, func(n ast.Node) bool {
+		if ts, ok := n.(*ast.TypeSwitchStmt); ok {
+			if as, ok := ts.Assign.(*ast.AssignStmt); ok && len(as.Lhs) == 1 {
+				if id, ok := as.Lhs[0].(*ast.Ident); ok {
+					tsDefs[id] = true
+				}
+			}
+		}
+		return true
+	})
 	var marks []*binding
+	var locals []bool
 	ast.Inspect(h.decl.Body, func(n ast.Node) bool {
 		if id, ok := n.(*ast.Ident); ok {
 			var hit *binding
@@ -1196,21 +1215,41 @@ func (nz *normaliser) expandBody(h *helper, call *ast.CallExpr, lhs []ast.Expr, 
 				}
 			}
 			marks = append(marks, hit)
+			obj := hinfo.Defs[id]
+			if obj == nil {
+				obj = hinfo.Uses[id]
+			}
+			loc := tsDefs[id]
+			switch o := obj.(type) {
+			case *types.Var:
+				loc = loc || (!o.IsField() && within(o.Pos()))
+			case *types.TypeName, *types.Const:
+				loc = within(o.Pos())
+			}
+			locals = append(locals, loc && id.Name != "_")
 		}
 		return true
 	})
 	body := cloneNode(h.decl.Body)
 	uses := map[*binding][]*ast.Ident{}
+	identOf := map[*ast.Ident]*binding{}
 	i := 0
 	ast.Inspect(body, func(n ast.Node) bool {
 		if id, ok := n.(*ast.Ident); ok {
 			if marks[i] != nil {
 				uses[marks[i]] = append(uses[marks[i]], id)
+				identOf[id] = marks[i]
+			}
+			// everything the helper declares gets a name of its own: neither the caller's variables that receive the results
+			// nor the caller's statements that are copied to the return sites can be captured by it
+			if locals[i] {
+				id.Name += sfx
 			}
 			i++
 		}
 		return true
 	})
+	substExpr := map[*binding]ast.Expr{}
 	var binds []ast.Stmt
 	bound := map[string]bool{}
 	for k := range bs {
@@ -1245,29 +1284,51 @@ func (nz *normaliser) expandBody(h *helper, call *ast.CallExpr, lhs []ast.Expr, 
 				}
 			}
 		}
+		// a field of a variable (req.Params, c.conn) handed to a parameter that the helper only reads is read in place
+		if sel, ok := ast.Unparen(b.arg).(*ast.SelectorExpr); ok && selectorChain(sel) && !mutated(hinfo, h.decl.Body, b.v) && types.Identical(info.TypeOf(b.arg), b.v.Type()) {
+			substExpr[b] = b.arg
+			continue
+		}
+		pname := b.name + sfx
+		for _, u := range uses[b] {
+			u.Name = pname
+		}
 		binds = append(binds, &ast.DeclStmt{Decl: &ast.GenDecl{Tok: token.VAR, Specs: []ast.Spec{&ast.ValueSpec{
-			Names: []*ast.Ident{ast.NewIdent(b.name)}, Type: cloneNode(b.typ), Values: []ast.Expr{b.arg}}}}})
+			Names: []*ast.Ident{ast.NewIdent(pname)}, Type: cloneNode(b.typ), Values: []ast.Expr{b.arg}}}}})
 		// keep the compiler quiet about parameters the body never reads
 		if len(uses[b]) == 0 {
-			binds = append(binds, &ast.AssignStmt{Lhs: []ast.Expr{ast.NewIdent("_")}, Tok: token.ASSIGN, Rhs: []ast.Expr{ast.NewIdent(b.name)}})
+			binds = append(binds, &ast.AssignStmt{Lhs: []ast.Expr{ast.NewIdent("_")}, Tok: token.ASSIGN, Rhs: []ast.Expr{ast.NewIdent(pname)}})
 		}
-		bound[b.name] = true
+		bound[pname] = true
+	}
+	if len(substExpr) > 0 {
+		replaceExprs(body, func(e ast.Expr) ast.Expr {
+			if id, ok := e.(*ast.Ident); ok {
+				if b := identOf[id]; b != nil && substExpr[b] != nil {
+					return cloneNode(substExpr[b])
+				}
+			}
+			return nil
+		})
 	}
 	// named results become locals
 	var named []string
 	if h.decl.Type.Results != nil {
 		for _, fld := range h.decl.Type.Results.List {
 			for _, nm := range fld.Names {
-				named = append(named, nm.Name)
+				rn := nm.Name
+				if rn != "_" {
+					rn += sfx
+				}
+				named = append(named, rn)
 				if nm.Name != "_" {
 					binds = append(binds, &ast.DeclStmt{Decl: &ast.GenDecl{Tok: token.VAR, Specs: []ast.Spec{&ast.ValueSpec{
-						Names: []*ast.Ident{ast.NewIdent(nm.Name)}, Type: cloneNode(fld.Type)}}}})
-					binds = append(binds, &ast.AssignStmt{Lhs: []ast.Expr{ast.NewIdent("_")}, Tok: token.ASSIGN, Rhs: []ast.Expr{ast.NewIdent(nm.Name)}})
+						Names: []*ast.Ident{ast.NewIdent(rn)}, Type: cloneNode(fld.Type)}}}})
+					binds = append(binds, &ast.AssignStmt{Lhs: []ast.Expr{ast.NewIdent("_")}, Tok: token.ASSIGN, Rhs: []ast.Expr{ast.NewIdent(rn)}})
 				}
 			}
 		}
 	}
-	nz.seq++
 	label := fmt.Sprintf("inlZq%d", nz.seq)
 	// the receiving variables are assigned from inside the helper's scope: if the helper declares (or this block
 	// binds) one of their names, results travel through fresh temporaries declared outside that scope
@@ -1278,8 +1339,8 @@ func (nz *normaliser) expandBody(h *helper, call *ast.CallExpr, lhs []ast.Expr, 
 		for _, l := range lhs {
 			ast.Inspect(l, func(n ast.Node) bool {
 				if id, ok := n.(*ast.Ident); ok && id.Name != "_" {
-					if bound[id.Name] || declaresName(hinfo, h.decl.Body, id.Name) {
-						capt = true
+					if bound[id.Name] {
+						capt = true // cannot happen: bound names carry a suffix of their own
 					}
 					for _, nm := range named {
 						if nm == id.Name {
@@ -1391,10 +1452,10 @@ func (nz *normaliser) expandBody(h *helper, call *ast.CallExpr, lhs []ast.Expr, 
 					out = append(out, &ast.AssignStmt{Lhs: []ast.Expr{ast.NewIdent("_")}, Tok: token.ASSIGN, Rhs: []ast.Expr{e}})
 				}
 			}
-			if k != nil && !k.pred && len(res) == len(lhs) {
+			if k != nil && !k.pred {
 				// the caller's test of the results, copied to this return site (dropped where the tested result is a literal nil)
 				skip := false
-				if k.nilIdx >= 0 && k.nilIdx < len(res) {
+				if len(res) == len(lhs) && k.nilIdx >= 0 && k.nilIdx < len(res) {
 					if id, ok := ast.Unparen(res[k.nilIdx]).(*ast.Ident); ok && id.Name == "nil" {
 						skip = true
 					}
@@ -1496,6 +1557,20 @@ func freeBreak(n ast.Node) bool {
 	}
 	walk(n, false)
 	return found
+}
+
+// selectorChain: x.a.b with x an identifier.
+func selectorChain(e ast.Expr) bool {
+	for {
+		switch x := ast.Unparen(e).(type) {
+		case *ast.SelectorExpr:
+			e = x.X
+		case *ast.Ident:
+			return true
+		default:
+			return false
+		}
+	}
 }
 
 // mentionsFreeName: the fragment uses name for something that is not declared inside it (renaming a parameter to it would capture).
